@@ -348,7 +348,7 @@ theorem expm_cancel_nonvacuous : ∃ (Afun : List ℝ → List ℝ) (M : Nat →
   have hOk : ∀ (p q dt : ℝ), p ≠ 0 → ∃ r, expmKrylov Afun sqrtNorm deigh dexp id [p, q] dt 1 true = .ok r := by
     intro p q dt hp
     obtain ⟨⟨alpha, beta, V⟩, hl⟩ := lanczos_isOk Afun (sqrtNorm (𝕜 := ℝ)) (vstart := [p, q]) (numiter := 1)
-      ((sqrtNorm_contract.pos_iff _).2 ⟨p, by simp, hp⟩) (by omega)
+      ((sqrtNorm_contract.pos_iff _).2 ⟨p, by simp, hp⟩) (by omega) (by simp)
     have hE' := hAt p q alpha beta V hl
     obtain ⟨h1, _, _, _, hVn⟩ := lanczos_sizes _ _ hl
     unfold expmKrylov
